@@ -116,7 +116,9 @@ def runOps (h : HCase) : List (Nat × Nat) → St → List String → List Strin
     else
       match childState cur (h.tab.path a) with
       | (some ch, r) => runOps h rest cur (acc ++ [showRes s!"ok res={sid ch}" r])
-      | (none, r) => acc ++ [s!"assert log={showLog r.log}"]
+      | (none, r) =>
+        -- the query failed (AssertionError); the caller may go on using the chart
+        runOps h rest cur (acc ++ [s!"assert state={sid r.state} temp={sid r.temp} log={showLog r.log}"])
 
 def hsmLine (toks : List Nat) : String :=
   let (h, _) := parseCase.run toks
@@ -139,7 +141,7 @@ def specOps (h : HCase) : List (Nat × Nat) → St → List String → List Stri
     else
       match specChild cur (h.tab.path a) with
       | some ch => specOps h rest cur (acc ++ [s!"ok res={sid ch} state={sid cur} log="])
-      | none => acc ++ ["assert"]
+      | none => specOps h rest cur (acc ++ [s!"assert state={sid cur} log="])
 
 def hsmSpecLine (toks : List Nat) : String :=
   let (h, _) := parseCase.run toks
